@@ -11,6 +11,7 @@ import (
 	"os"
 	"path/filepath"
 	"sort"
+	"time"
 
 	"github.com/cloudflare/circl/group"
 	"github.com/cloudflare/circl/oprf"
@@ -708,6 +709,34 @@ func c01Type2ConstructedResponses(c *core.Ctx, rk *rsa.PrivateKey) {
 		})
 		if pan {
 			bad("panic:"+where, pv)
+		}
+	}
+}
+
+// c01AcrossSuspension: a stream of honest runs on one issuer during which the whole process is suspended for 2.6 s
+// (SIGSTOP/SIGCONT: for the code, time jumps and nothing else happens). Every run still completes with a valid token;
+// an issuer or client that gives up because "too much time has passed" refuses the run that was in flight.
+func c01AcrossSuspension(c *core.Ctx, k1, k5 *oprf.PrivateKey, rk *rsa.PrivateKey) {
+	for ai := 0; ai < 4; ai++ {
+		if !c.Next() {
+			continue
+		}
+		r := c.CaseRng()
+		a := c01Adapters(r, k1, k5, rk)[ai]
+		frozen := freezeSelfAfter(30*time.Millisecond, 2600*time.Millisecond)
+		before := c.ViolationCount()
+		for k := 0; k < 12; k++ { // each session is 10 runs: the stream outlasts the suspension
+			c01RunSession(c, a, r, 10, fmt.Sprintf("suspension-%d", k))
+			select {
+			case <-frozen:
+				k = 100
+			default:
+			}
+		}
+		<-frozen
+		c01RunSession(c, a, r, 4, "after-suspension")
+		if c.ViolationCount() == before {
+			c.Class("runs_complete_across_a_process_suspension")
 		}
 	}
 }
